@@ -205,6 +205,12 @@ func (c *caseRun) hashes(limit uint64, rejectSet map[string]bool) {
 	if uint64(nrej) > limit {
 		r.Count("calls_rejecting_more_than_limit", 1)
 	}
+	if nrej > 333 {
+		r.Count("calls_rejecting_more_than_333", 1)
+	}
+	if len(asked)-nrej-int(limit) > 333 {
+		r.Count("calls_dropping_more_than_333_older_duplicates", 1)
+	}
 	if panicked {
 		c.hist[hi].Note = "panic"
 		c.dead = true
@@ -310,7 +316,7 @@ func (c *caseRun) hashes(limit uint64, rejectSet map[string]bool) {
 func TestC22(t *testing.T) {
 	r := vlib.Start(t, "C22", vlib.LevelExploration)
 	defer r.Finish()
-	r.SetRule("case = history over one real TempPool (leveldb MemStorage): 3..10 rounds of [SetOperation of new DummyOperations (1..12 shared facts re-signed by different keys plus unique facts; 1..200 operations per case), SetOperation again of already added ones (live and filtered-out), OperationHashes(limit 1..50, filter rejecting a random subset incl. more than limit entries)]; every answer is judged against an insertion-ordered model; distinct = (operations, facts, rounds, limits, rejected counts); non-trivial = at least one fact added more than once and at least one non-empty answer")
+	r.SetRule("case = history over one real TempPool (leveldb MemStorage): 3..10 rounds of [SetOperation of new DummyOperations (1..12 shared facts re-signed by different keys plus unique facts; 1..200 operations per case; one case in 150 is large: 900..1400 operations, 3/4 of them added before the first question, filters rejecting 0/70/90 percent, so that single calls reject and drop as older duplicates several hundred entries), SetOperation again of already added ones (live and filtered-out), OperationHashes(limit 1..50, filter rejecting a random subset incl. more than limit entries)]; every answer is judged against an insertion-ordered model; distinct = (operations, facts, rounds, limits, rejected counts); non-trivial = at least one fact added more than once and at least one non-empty answer")
 	r.Assume("insertions are sequential and separated by at least one wall-clock nanosecond (the pool's order key is the insertion time)")
 	r.Assume("limit >= 1 (launch/p_proposal_maker.go never asks with n < 1)")
 	r.Assume("'most recently added operation is chosen' is judged by insertion order among operations of the fact that pass the filter of the call and were never filtered out; when the answer is full (limit entries) operations added after the newest returned entry are not demanded to have been considered (counted as newer_duplicate_beyond_full_answer)")
@@ -357,6 +363,16 @@ func runCase(r *vlib.Run, g *rig, ci int) {
 	}
 	uniqP := []int{0, 10, 50, 90}[rng.Intn(4)] // percent of operations with a fact of their own
 	rounds := 3 + rng.Intn(8)
+	// large cases: 900..1400 operations, most of them added before the first
+	// question, so that one OperationHashes call rejects / drops as older
+	// duplicates more entries than any internal batch or worker size (127, 333)
+	large := ci%r.N(150, 170) == 2
+	if large {
+		total = 900 + rng.Intn(500)
+		uniqP = 2 // fewer facts than the limit: every call goes through the whole pool
+		rounds = 3
+		r.Count("large_cases", 1)
+	}
 	nextUniq := nshared
 
 	var fpLimits, fpRej []string
@@ -368,6 +384,9 @@ func runCase(r *vlib.Run, g *rig, ci int) {
 			n = rng.Intn(left + 1)
 			if k == 0 && n == 0 {
 				n = 1
+			}
+			if large && k == 0 {
+				n = left * 3 / 4
 			}
 		}
 		left -= n
@@ -406,6 +425,10 @@ func runCase(r *vlib.Run, g *rig, ci int) {
 				limit = uint64(1 + rng.Intn(4))
 			}
 			rejP := []int{0, 0, 10, 50, 90}[rng.Intn(5)]
+			if large {
+				rejP = []int{0, 70, 90}[(k+a+ci/r.N(150, 170))%3]
+				limit = 50
+			}
 			rej := map[string]bool{}
 			for _, m := range c.ops {
 				if rng.Intn(100) < rejP {
